@@ -24,6 +24,7 @@ import SqModel.Model.Checked
 import SqModel.Proofs.Reader
 import SqModel.Generated.Sites
 import SqModel.Props.C02
+import SqModel.Proofs.Safe
 
 namespace Sq.C01
 
@@ -128,5 +129,29 @@ theorem later_lines_still_processed (env : Env) (cfg : DecodeCfg) (now : Int) (t
   unfold runSegment
   simp only [List.foldl_append, List.foldl_cons, List.foldl_nil]
   rw [C02.nonframe_noop env cfg now _ bad hbad]
+
+/-! ### the arithmetic clause: no operation of the per-line pipeline can panic
+
+`Generated/TransSafe.lean` states, for each of the 133 functions the translator regenerates from the source, the conditions
+under which none of its operations traps (430 obligations: unsigned subtraction, overflowing `+`/`*`, over-wide shifts,
+indexing, `expect`, division by zero, and the safety of every call), and `Proofs/Safe.lean` proves them bottom-up. -/
+
+/-- **one iteration of the reader loop cannot trap**, whatever the line, the options and the table - provided the rows carry
+    altitudes the decoder can have produced (`TableOK`: below 100 000 ft, which `altitude()` guarantees for every value it
+    returns, `Safe.altitude_lt`) and no DF has been counted 2^31 - 1 times (`CountOK`; the `i32` counters are the one
+    place where a long enough run does overflow, named in DESIGN 5.1 as not covered) -/
+theorem no_trap_per_line (now : Int) (te : TEnv) (line : List Char) (a : T.Args) (t : T.Planes) (c : T.AppCounters)
+    (hT : Safe.TableOK t) (hC : Safe.CountOK c) : T.read_lines_step.safe now te line a t c :=
+  Safe.read_lines_step_safe now te line a t c hT hC
+
+/-- the gate alone needs no hypothesis at all: `get_message` cannot trap on any line -/
+theorem no_trap_in_gate (line : List Char) : T.get_message.safe line := Safe.get_message_safe line
+
+/-- the hypotheses are satisfiable: the state every run starts from -/
+example : Safe.TableOK ⟨[]⟩ ∧ Safe.CountOK ⟨[], 0, 0⟩ := by
+  refine ⟨?_, ?_, ?_⟩
+  · intro kv h; simp at h
+  · intro kc h; simp at h
+  · decide
 
 end Sq.C01
